@@ -121,3 +121,36 @@ fn cmp_short() {
     forget(la);
     forget(lb);
 }
+
+// ------------------------------------------------------------------ float -> int (floor/ceil/trunc)
+/// FromPrimitive::from_f64: None iff n is not integral; Some(Short(s)) => s is exactly n;
+/// Some(Long(_)) only outside the i64 range.
+/// num-bigint's float decoding (digit loops) exhausts CBMC (measured: 65 GB); the harness only needs
+/// *that* the Long branch is taken, not the digits
+pub(crate) fn bigint_from_f64_stub(_n: f64) -> Option<BigInt> {
+    Some(BigInt::from(1u128 << 100))
+}
+
+#[kani::proof]
+#[kani::unwind(6)]
+#[kani::stub(<num_bigint::BigInt as num_traits::FromPrimitive>::from_f64, bigint_from_f64_stub)]
+fn from_f64_exact() {
+    use num_traits::FromPrimitive;
+    let n: f64 = kani::any();
+    kani::assume(n.is_finite()); // PRE: floats of the language are finite (C13)
+    let r = LazyBigint::from_f64(n);
+    match &r {
+        None => assert!(n.fract() != 0.0, "None only for a non-integral float"),
+        Some(LazyBigint::Short(s)) => {
+            assert!(n.fract() == 0.0, "Some only for an integral float");
+            assert!(*s as i128 == n as i128, "Short(s) denotes exactly n");
+        }
+        Some(LazyBigint::Long(_)) => {
+            assert!(n.fract() == 0.0, "Some only for an integral float");
+            assert!(n >= 9223372036854775808.0 || n < -9223372036854775808.0, "Long only outside the i64 range (canonical)");
+        }
+    }
+    kani::cover!(matches!(&r, Some(LazyBigint::Short(_))), "short reachable");
+    kani::cover!(matches!(&r, Some(LazyBigint::Long(_))), "long reachable");
+    forget(r);
+}
